@@ -587,6 +587,18 @@ class Interp:
                 return self.unop(c, f"{mod}.reciprocal", _np_recip, self._arr(a0))
             if name in ("negative", "neg"):
                 return self.unop(c, "neg", lambda x: -x, a0)
+            if name in ("abs", "absolute", "fabs") and a0.kind == "num":
+                return self.unop(c, "abs", lambda x: abs(x), a0)
+            if name in ("isinf", "isneginf", "isposinf") and a0.kind == "num":
+                pred = {"isinf": lambda k: k in (NINF, PINF), "isneginf": lambda k: k == NINF, "isposinf": lambda k: k == PINF}[name]
+                v = V("bool", {pred(x) for x in a0.cls}, True)
+                v.items = {x: frozenset({pred(x)}) for x in a0.cls}
+                return v
+            if name in ("logical_not",) and a0.kind == "bool":
+                return V("bool", {not x for x in a0.cls}, True)
+            if name in ("logical_and", "logical_or") and len(args) == 2 and a0.kind == "bool" and args[1].kind == "bool":
+                f2 = (lambda x, y: x and y) if name == "logical_and" else (lambda x, y: x or y)
+                return V("bool", {f2(x, y) for x in a0.cls for y in args[1].cls}, True)
             if name in ("maximum", "fmax") or (name == "max" and len(args) == 2 and args[1].kind == "num"):
                 return self.binop(c, f"{mod}.maximum", _np_max, self._arr(a0), args[1])
             if name in ("minimum", "fmin") or (name == "min" and len(args) == 2 and args[1].kind == "num"):
@@ -613,6 +625,9 @@ class Interp:
                 v.items = {x: frozenset({x == NAN}) for x in a0.cls}
                 return v
             if name == "where" and len(args) == 3:
+                split = self._where_by_cases(c, env, depth)
+                if split is not None:
+                    return split
                 cond, a, b = args
                 a, b = (num(x.cls, True) if x.kind == "num" else x for x in (a, b))
                 if cond.kind == "bool" and isinstance(cond.items, dict) and a.kind == "num" and b.kind == "num" and c.args[1] is not None:
@@ -661,6 +676,57 @@ class Interp:
             return self.opaque(f"library function {r}", c)
         return None
 
+    ELEMENTWISE_MASK_CALLS = {"abs", "absolute", "fabs", "isfinite", "isnan", "isinf", "isneginf", "isposinf", "logical_not", "logical_and", "logical_or",
+                              "finfo", "negative"}
+
+    def _where_by_cases(self, c: ast.Call, env, depth) -> Optional[V]:
+        """where(mask(X), a, b) with an element-wise mask over ONE array variable X: decided by case split on the class of the
+        element of X (each element sees its own mask value), so any spelling of the predicate is read the same way -
+        isfinite(X), abs(X) <= finfo.max, (X > -inf) & (X < inf) ..."""
+        m, ae, be = c.args
+        names = {n.id for n in ast.walk(m) if isinstance(n, ast.Name) and n.id in env and env[n.id].kind == "num" and env[n.id].arr}
+        if len(names) != 1:
+            return None
+        X = next(iter(names))
+        xv = env[X]
+        if not xv.cls:
+            return None
+        for n in ast.walk(m):
+            if isinstance(n, ast.Call):
+                fn = n.func.attr if isinstance(n.func, ast.Attribute) else (n.func.id if isinstance(n.func, ast.Name) else None)
+                if fn not in self.ELEMENTWISE_MASK_CALLS:
+                    return None
+            elif not isinstance(n, (ast.Compare, ast.BinOp, ast.BoolOp, ast.UnaryOp, ast.Attribute, ast.Constant, ast.Name, ast.Load, ast.cmpop, ast.operator,
+                                    ast.unaryop, ast.boolop, ast.expr_context)):
+                return None
+        a_is_x = isinstance(ae, ast.Name) and ae.id == X
+        b_is_x = isinstance(be, ast.Name) and be.id == X
+        if not (a_is_x or b_is_x):
+            return None
+        out = set()
+        replaced = set()
+        other_cls = set()
+        for k in sorted(xv.cls):
+            env2 = dict(env)
+            env2[X] = num({k}, True, xv.ub)
+            mv = self.ev(m, env2, depth)
+            av, bv = self.ev(ae, env2, depth), self.ev(be, env2, depth)
+            if mv.kind != "bool" or av.kind != "num" or bv.kind != "num":
+                return None
+            if True in mv.cls:
+                out |= av.cls
+                if b_is_x and not a_is_x:
+                    replaced.add(k)
+                    other_cls |= av.cls
+            if False in mv.cls:
+                out |= bv.cls
+                if a_is_x and not b_is_x:
+                    replaced.add(k)
+                    other_cls |= bv.cls
+        # a -inf element replaced by a finite one: the result is still an upper bound of whatever X bounded
+        keep_ub = upper_of(xv) if replaced <= {NINF} and other_cls <= FINITE else frozenset()
+        return num(out, True, keep_ub)
+
     @staticmethod
     def _mask_source(e):
         if isinstance(e, ast.Call) and e.args:
@@ -679,6 +745,13 @@ class Interp:
         """dispatch an op of the package the way the program does: by the kinds of its first `arity` arguments"""
         if depth >= self.depth_limit:
             return self.opaque("inlining depth", c)
+        # constant-array constructors of the package: the element class is that of the fill value
+        if op.name == "new_full" and len(args) >= 3 and args[2].kind == "num":
+            return num(args[2].cls, True)
+        if op.name == "new_zeros":
+            return num({ZERO}, True)
+        if op.name in ("new_eye", "new_arange"):
+            return num({ZERO, POS}, True)
         arity = self.cat.arity_of(op.fq) or 1
         head = args[:arity]
         kinds = []
@@ -823,6 +896,11 @@ class Interp:
                     env2 = self.refine(st.test, env, outcome, depth)
                     if env2 is None:
                         continue
+                    # lists are mutated in place (append): give each branch its own copy so that the two branches are
+                    # alternatives (joined element-wise afterwards), not two appends to one list
+                    for k_, v_ in list(env2.items()):
+                        if v_.kind == "seq" and isinstance(v_.items, list):
+                            env2[k_] = V("seq", items=list(v_.items))
                     r = self.block(body, env2, depth)
                     ret = join(ret, r)
                     if "<done>" not in env2:
